@@ -14,7 +14,7 @@ import subprocess
 import time
 from concurrent.futures import ProcessPoolExecutor
 
-from common import CICADA, HELPERS, Report, ToolError, check_action_coverage, cleanup_scratch, log, run_tlc, std_main
+from common import run_apalache, CICADA, HELPERS, Report, ToolError, check_action_coverage, cleanup_scratch, log, run_tlc, std_main
 import tracecheck
 
 TEXT = {"t1": "plain words", "t2": "it's", "t3": 'a"b', "t4": "100%", "t5": "a_b", "t6": "a\\b", "t7": "x; --", "t8": ")", "t9": "é 你"}
@@ -121,6 +121,13 @@ def runner(rep, tier, seed, replay):
     if r.violation:
         raise ToolError("history reference violates its own theorem:\n" + r.violation[:1500])
     rep.add_tlc(r)
+    # unbounded in the ids: the table core with an inductive invariant (ids positive, below nextid, strictly increasing along
+    # the table), discharged by Apalache for every table of <= 4 rows with arbitrary integer ids (spec/apalache/HistoryInd.tla)
+    ap = run_apalache("HistoryInd", [("init", ["--cinit=ConstInit", "--init=Init", "--inv=IndInv", "--length=0"]),
+                                     ("step", ["--cinit=ConstInit", "--init=IndInit", "--inv=IndInv", "--length=1"]),
+                                     ("unique", ["--cinit=ConstInit", "--init=IndInit", "--inv=UniqueIds", "--length=0"])])
+    rep.cov["apalache_inductive_invariant"] = ap
+    log("[C18] Apalache inductive invariant: %s" % ap)
     hists = []
     n = 30 if tier == "quick" else 600
     rs = run_tlc("History", "History_sim", simulate=max(3, n // 50), depth=20, seed=seed, workers=1, coverage=False,
